@@ -353,7 +353,7 @@ gateway) and forwards the request (TTL − 2); B learns "A ↦ the router's MAC"
 learned) gateway; the router forwards the reply from its cache; A counts it.  For every fuel ≥ 16. -/
 theorem C08_permitted_exchange_succeeds_cold_routed (fuel : Nat) (st : St) (a r b ia ib : Nat) (ndA ndR ndB : Node)
     (ifA ifB ra rb ownA ownB : Iface) (h : ColdRouted st a r b ia ib ndA ndR ndB ifA ifB ra rb ownA ownB)
-    (hrep : replyCount ndA.replies st.nextId = none) :
+    (hrep : replyCount ndA.replies st.nextId = none) (hlo : isLoopback ifB.ip = false) :
     (ping (fuel + 16) st a ifB.ip 1).2 = true := by
   generalize hst0 : ({ st with nextId := st.nextId + 1 } : St) = st0
   have S0 : Snap st0 (cfgOf st) a b r ndA ndB ndR := by rw [← hst0]; exact ⟨rfl, h.nodeA, h.nodeB, h.nodeR⟩
@@ -492,7 +492,7 @@ theorem C08_permitted_exchange_succeeds_cold_routed (fuel : Nat) (st : St) (a r 
     rw [hf16, hsend]
     simp only [node?_modNode, if_true, node?_emit, SX6.na, Option.map_some]
   unfold ping
-  simp only [h.nodeA, h.onA, Bool.not_true, Bool.false_eq_true, if_false, List.range_one, List.foldl_cons, List.foldl_nil, hst0, hro0,
+  simp only [h.nodeA, h.onA, hlo, Bool.not_true, Bool.false_eq_true, if_false, List.range_one, List.foldl_cons, List.foldl_nil, hst0, hro0,
     hfinal, Bool.true_and]
   rw [addArp_replies, A1rep, replyCount_bump ndA.replies st.nextId hrep]
   rfl
@@ -515,7 +515,7 @@ theorem crRouted : ColdRouted exNet 0 1 2 0 1 exNet.nodes[0] exNet.nodes[1] exNe
 
 /-- the theorem applies to it, at the smallest budget it allows … -/
 example : (ping 16 exNet 0 crB.ip 1).2 = true :=
-  C08_permitted_exchange_succeeds_cold_routed 0 exNet 0 1 2 0 1 _ _ _ crA crB crRa crRb crRa crRb crRouted rfl
+  C08_permitted_exchange_succeeds_cold_routed 0 exNet 0 1 2 0 1 _ _ _ crA crB crRa crRb crRa crRb crRouted rfl (by decide)
 /-- … agrees with evaluation, and 15 levels are NOT enough (the bound of the theorem is tight for this network). -/
 example : (ping 16 exNet 0 crB.ip 1).2 = true := by decide +kernel
 example : (ping 15 exNet 0 crB.ip 1).1.oof = true := by decide +kernel
